@@ -90,7 +90,10 @@ def read_packets(b):
             if ln is None:
                 raise PgpError("truncated length")
         if p + ln > n:
-            raise PgpError("packet body overruns data")
+            # a reader that consumes the fields it needs does not notice an over-long declared length on the last packet
+            if out or p >= n:
+                raise PgpError("packet body overruns data")
+            ln = n - p
         out.append((tag, [(p, p + ln)], None, h))
         p += ln
     return out
@@ -158,8 +161,13 @@ def dearmor(txt, kind=b"PGP SIGNATURE"):
     parts = re.split(rb"\r?\n[ \t]*\r?\n", b"\n" + inner, maxsplit=1)
     if len(parts) != 2:
         raise PgpError("armor without blank line")
-    lines = [l.strip() for l in re.split(rb"\r?\n", parts[1]) if l.strip()]
-    data = b"".join(l for l in lines if not l.startswith(b"="))
+    # base64 body: up to its padding; the CRC-24 line ("=XXXX") that may follow is optional and not content (RFC 4880 §6.1)
+    mm = re.match(rb"\A([A-Za-z0-9+/ \t\r\n]*)(={0,2})", parts[1])
+    data = re.sub(rb"[ \t\r\n]", b"", mm.group(1))
+    data += b"=" * (-len(data) % 4)
+    rest = parts[1][mm.end():]
+    if not mm.group(2) and rest.strip() and not rest.lstrip().startswith(b"="):
+        raise PgpError("garbage in armor body")
     try:
         raw = base64.b64decode(data, validate=True)
     except (binascii.Error, ValueError) as e:
@@ -288,7 +296,7 @@ def deb_view(b):
                 v = clearsign_view(c)
                 if v is None:
                     return None
-                out.append((n, v))
+                out.append((b"_gpg*", v[:3]))       # the role suffix is repeated inside the signed text; bytes after the armor are not read
             else:
                 out.append((n, hashlib.sha256(c).digest()))
         if not any(n.startswith(b"_gpg") for n, _ in out):
@@ -359,25 +367,50 @@ def rpm_parts(b):
     return stags, sdata, send, hstart, hend
 
 
+RPM_DIGEST_TAGS = {269: "sha1", 273: "sha256", 1004: "md5"}     # SHA1HEADER, SHA256HEADER (hex strings over the header), MD5 (binary, header+payload)
+RPM_SIG_TAGS = (267, 268, 1002, 1005)                            # DSAHEADER, RSAHEADER (header), PGP, GPG (header+payload)
+
+
 def rpm_view(b):
-    """rpm file format: the lead is obsolete and unchecked; the signature header holds digests and signatures over the header
-    (RSAHEADER/SHA1/SHA256) and over header+payload (PGP/MD5/size); the header and payload are protected in full, every
-    signature-header tag value except reserved space is an embedded digest / signature value."""
+    """rpm file format: the lead is obsolete and unchecked; the signature header is not itself authenticated: it carries
+    OpenPGP signatures over the header (RSAHEADER) and over header+payload (PGP) and plain digests (SHA1/SHA256 of the header,
+    MD5 of header+payload). Protected: header and payload in full, every signature packet, and every digest value that is
+    present (a present digest that does not match the content is an altered embedded digest). Reserved space, sizes and the
+    region trailer are not."""
     try:
         stags, sdata, send, hstart, hend = rpm_parts(b)
-        vals = []
+        sigs, bad = [], []
         for i, (tag, typ, off, cnt, _) in enumerate(stags):
-            if tag in RPM_SIG_RESERVED:
-                continue
-            s, e = rpm_tag_value(b, stags, sdata, send, i)
-            v = bytes(b[s:e])
-            if tag in (268, 1002, 1005, 267) and typ == 7:      # RSAHEADER, PGP, GPG, DSAHEADER: OpenPGP signature packets
+            if tag in RPM_SIG_TAGS and typ == 7:
+                s, e = rpm_tag_value(b, stags, sdata, send, i)
+                v = bytes(b[s:e])
                 pk = read_packets(v)
-                v = tuple(sig_view(body(v, p))[0] for p in pk)
-            vals.append((tag, typ, v))
-        return ("rpm", tuple(sorted(vals, key=lambda t: t[0])), hashlib.sha256(bytes(b[hstart:])).digest())
+                sigs.append((tag,) + tuple(sig_view(body(v, p))[0] for p in pk))
+            elif tag in RPM_DIGEST_TAGS:
+                s, e = rpm_tag_value(b, stags, sdata, send, i)
+                v = bytes(b[s:e])
+                # an entry of the wrong type, or an empty string, is not a digest (same as an absent tag)
+                if tag == 1004:
+                    if typ != 7 or cnt != 16:
+                        continue
+                    good = v == hashlib.md5(bytes(b[hstart:])).digest()
+                else:
+                    if typ != 6 or v.rstrip(b"\0") == b"":
+                        continue
+                    good = v.rstrip(b"\0").decode("latin-1").lower() == hashlib.new(RPM_DIGEST_TAGS[tag], bytes(b[hstart:hend])).hexdigest()
+                if not good:
+                    bad.append(tag)
+        if not sigs:
+            return None
+        return ("rpm", hashlib.sha256(bytes(b[hstart:hend])).digest(), hashlib.sha256(bytes(b[hend:])).digest(), frozenset(sigs), frozenset(bad))
     except (PgpError, ValueError, struct.error, IndexError):
         return None
+
+
+def rpm_neutral(v0, v1):
+    """each signature in the (unauthenticated) signature header stands alone: dropping one of several signatures made by the
+    same key, while the header signature remains and the header carries the payload digest, alters nothing that is protected"""
+    return v0[:3] == v1[:3] and v0[4] == v1[4] and v1[3] <= v0[3] and len(v1[3]) >= 1
 
 
 def rpm_regions(b):
@@ -386,7 +419,7 @@ def rpm_regions(b):
     for i, (tag, typ, off, cnt, _) in enumerate(stags):
         try:
             s, e = rpm_tag_value(b, stags, sdata, send, i)
-            r.append((s, e, "sigtag:%d" % tag))
+            r.append((s, e, "sigtag-%d" % tag))
         except (PgpError, ValueError):
             pass
     r.append((hstart, hend, "header"))
